@@ -25,7 +25,7 @@ LINE_PASSERS = ('skip_cond_incl', 'include_file')
 
 
 # minimum number of distinct obligations per rule, confirmed by hand on the pinned tree (below: exit 2)
-FLOORS = {'R10.1': 15, 'R10.2': 85, 'R10.3': 14, 'R10.4': 40, 'R10.5': 10, 'R10.6': 45, 'R10.7': 3, 'R10.8': 12}
+FLOORS = {'R10.1': 15, 'R10.2': 90, 'R10.3': 14, 'R10.4': 40, 'R10.5': 10, 'R10.6': 45, 'R10.7': 3, 'R10.8': 12}
 
 
 def _declare_rules(rep):
@@ -317,6 +317,35 @@ def _scanner_class(P, u, T, fn, d, variant=None):
     return cls, info
 
 
+def _after_nested(P, u, T, fn, d):
+    """`# d M` / `# ifdef z` / `x y`, where the nested skip started at the first line hands back the `#` of the second line:
+    True if the second line is recognised as an opener as well, a description otherwise, None if the first is not nested"""
+    def first_then_resync(it, ctx, n, args):
+        k = getattr(ctx, 'n_nested', 0)
+        ctx.n_nested = k + 1
+        r = ctx.toks[3] if k == 0 else resync(ctx, 'skip_cond_incl2', args[0] if args else None)
+        ctx.emit('call', 'skip_cond_incl2', args, n.line, r, r)
+        return r
+    cfg = _scan_cfg('skip_cond_incl2')
+    cfg['cut'] = {'skip_cond_incl2': first_then_resync}
+    it = PPInterp(P, u, cfg)
+    res = it.explore(fn, directive_scenario(T, d, second='ifdef'), max_paths=200)
+    verdicts = set()
+    for ctx, out in res:
+        o = outcome(out)
+        nest = calls(ctx, 'skip_cond_incl2')
+        if not nest or idx_of(ctx, nest[0][2][0] if nest[0][2] else None) not in (1, 2):
+            return None
+        if len(nest) == 2 and idx_of(ctx, nest[1][2][0] if nest[1][2] else None) in (4, 5) and o[0] == 'resume' and o[1] is nest[1][5]:
+            verdicts.add(True)
+        else:
+            verdicts.add('it goes on with %s' % ('the token after it' if len(nest) == 1 else 'a %d. nested scan' % len(nest)))
+    if verdicts == {True}:
+        return True
+    bad = sorted(v for v in verdicts if v is not True)
+    return bad[0] if bad else None
+
+
 def _guard_scenario(T, d, variant=None):
     def mk(ctx):
         specs = T.line('g', [('#', 'TK_PUNCT'), ('ifndef', 'TK_IDENT'), ('G', 'TK_IDENT')])
@@ -484,6 +513,20 @@ def r102(P, u, T, rep, dres):
             if d in OPENERS and not ok:
                 what += ' (nested conditionals are then mis-nested: their #else/#endif are taken for those of the enclosing group)'
             rep.ob('R10.2', '%s:%s:%s' % (U, fn, construct), ok, what, where=where, facts={'behaviours': sorted(cls)})
+    # after a nested conditional has been skipped, the token handed back is itself examined as a possible directive
+    for fn in ('skip_cond_incl2', 'skip_cond_incl'):
+        where = '%s:%d' % (U, u.fn(fn).line)
+        for d in OPENERS:
+            try:
+                r = _after_nested(P, u, T, fn, d)
+            except Unsupported as e:
+                rep.undecided('R10.2', '%s:%s:after-nested/%s' % (U, fn, d), 'cannot interpret %s: %s' % (fn, e))
+                continue
+            if r is None:
+                continue    # the opener itself is not recognised: reported above
+            rep.ob('R10.2', '%s:%s:%s/%s' % (U, fn, 'after-nested-examined' if r is True else 'after-nested-not-examined', d), r is True,
+                   'after skipping the conditional opened by `#%s`, %s does not examine the token it resumes at as a possible directive (%s): a conditional '
+                   'that starts right after the `#endif` of the previous one is not counted and the nesting is lost' % (d, fn, r), where=where)
     # the same words where they are not directives: after a token that is not `#`, or after a `#` in the middle of a line
     vsay = {'word': 'the word `%s` after an ordinary token', 'midline': '`# %s` in the middle of a line (not a directive)'}
     for fn in ('skip_cond_incl2', 'skip_cond_incl'):
